@@ -48,7 +48,7 @@ Init ==
   c = [pc |-> "idle", op |-> "", arg |-> NoArg, ret |-> <<>>, hs |-> <<>>, code |-> 0, pl |-> "",
        try |-> 0, raw |-> "", lst |-> "", ents |-> 0, hits |-> 0, need |-> 0, lvl |-> 0, val |-> "",
        gv |-> "", goff |-> 0, n |-> 0,
-       rq |-> <<>>, seof |-> FALSE, ctl |-> "open", owed |-> 0,
+       rq |-> <<>>, seof |-> FALSE, ctl |-> "open", owed |-> 0, ns |-> 0,
        did |-> 0, d |-> "none", sd |-> "none", dq |-> <<>>, leaked |-> {}, out |-> <<>>]
 
 --------------------------------------------------------------------------------
@@ -59,7 +59,7 @@ Push(s, l)    == [s EXCEPT !.ret = Append(@, l)]
 PopRet(s)     == [s EXCEPT !.pc = s.ret[Len(s.ret)], !.ret = SubSeq(@, 1, Len(@) - 1)]
 PushH(s, h)   == [s EXCEPT !.hs = Append(@, [h |-> h, depth |-> Len(s.ret)])]
 PopH(s)       == [s EXCEPT !.hs = SubSeq(@, 1, Len(@) - 1)]
-SendC(s, v, a, next) == [Emit(s, EvSend(v, a)) EXCEPT !.pc = next, !.owed = @ + 1]
+SendC(s, v, a, next) == [Emit(s, EvSend(v, a)) EXCEPT !.pc = next, !.owed = @ + 1, !.ns = @ + 1]
 \* an exception passing the point where a data stream is held only by local variables: nobody closes it
 Abandon(s) == IF s.d = "open" THEN [s EXCEPT !.d = "none", !.leaked = @ \cup {s.did}] ELSE s
 Finish(s, kind, code, n) ==
@@ -98,49 +98,59 @@ SimpleOps == {"pwd", "cwd", "cdup", "rmd", "dele"}
 SVerb(op) == CASE op = "pwd" -> "PWD" [] op = "cwd" -> "CWD" [] op = "cdup" -> "CDUP" [] op = "rmd" -> "RMD" [] OTHER -> "DELE"
 SExp(op)  == CASE op = "pwd" -> {Ex(257)} [] op = "rmd" -> {Ex(250)} [] OTHER -> {m2xx}
 
+PasvVerb(s) == IF s.arg.cmds[s.try] = "epsv" THEN "EPSV" ELSE "PASV"
+PasvExp(s)  == IF s.arg.cmds[s.try] = "epsv" THEN {Ex(229)} ELSE {Ex(227)}
+\* the payload class of a reply is its shape, whatever command the server meant to answer: "plain" (one line of text),
+\* "epsv"/"pasv" (one line carrying a port in that syntax; "...dead": nobody listens there), "mlst" (three lines, facts in the middle)
+PasvShapes(s) == IF s.arg.cmds[s.try] = "epsv" THEN {"epsv", "epsvdead"} ELSE {"pasv", "pasvdead"}
+\* what each waiting point of client.py expects, waits through, and where it continues
+AwExp(s)  == CASE s.pc = "CN.w" -> {Ex(220)} [] s.pc = "L0.w" -> {Ex(230), m33x} [] s.pc = "S.w" -> SExp(s.op)
+               [] s.pc = "R1.w" -> {Ex(350)} [] s.pc = "R2.w" -> {m2xx} [] s.pc = "Q.w" -> {m2xx}
+               [] s.pc = "AB.w" -> {Ex(226)} [] s.pc = "PA0.w" -> {Ex(200)} [] s.pc = "PA1.w" -> PasvExp(s)
+               [] s.pc = "GS1.w" -> {Ex(350)} [] s.pc = "GS2.w" -> {m1xx} [] s.pc = "LS2.w" -> {m2xx}
+               [] s.pc = "ST0.w" -> {m2xx} [] s.pc = "MK.w" -> {Ex(257)} [] s.pc = "DL2.w" -> {m2xx}
+               [] s.pc = "UL2.w" -> {m2xx} [] OTHER -> {}
+AwWait(s) == CASE s.pc = "CN.w" -> {Ex(120)} [] s.pc = "L0.w" -> {} [] s.pc = "S.w" -> {} [] s.pc = "R1.w" -> {}
+               [] s.pc = "R2.w" -> {} [] s.pc = "Q.w" -> {} [] s.pc = "AB.w" -> {Ex(426)} [] s.pc = "PA0.w" -> {}
+               [] s.pc = "PA1.w" -> {} [] s.pc = "GS1.w" -> {} [] s.pc = "GS2.w" -> {} [] s.pc = "LS2.w" -> {m1xx}
+               [] s.pc = "ST0.w" -> {} [] s.pc = "MK.w" -> {} [] s.pc = "DL2.w" -> {m1xx}
+               [] s.pc = "UL2.w" -> {m1xx} [] OTHER -> {}
+AwNext(s) == CASE s.pc = "CN.w" -> "OK" [] s.pc = "L0.w" -> "L1" [] s.pc = "S.w" -> "OK" [] s.pc = "R1.w" -> "R2"
+               [] s.pc = "R2.w" -> "OK" [] s.pc = "Q.w" -> "Q.c" [] s.pc = "AB.w" -> "OK"
+               [] s.pc = "PA0.w" -> "PA1h" [] s.pc = "PA1.w" -> "PA2" [] s.pc = "GS1.w" -> "GS2"
+               [] s.pc = "GS2.w" -> "GS3" [] s.pc = "LS2.w" -> "LS3" [] s.pc = "ST0.w" -> "ST1"
+               [] s.pc = "MK.w" -> "MK3" [] s.pc = "DL2.w" -> "DL3" [] s.pc = "UL2.w" -> "OK" [] OTHER -> "idle"
+
 AwaitLabels == {"CN.w", "L0.w", "S.w", "R1.w", "R2.w", "Q.w", "AB.w", "PA0.w", "PA1.w", "GS1.w", "GS2.w", "LS2.w", "ST0.w", "MK.w", "DL2.w", "UL2.w"}
 DataLabels  == {"LS1", "DL1"}
 Blocked(s) == \/ s.pc = "idle"
               \/ s.pc \in AwaitLabels /\ s.rq = <<>>
               \/ s.pc \in DataLabels /\ s.dq = <<>>
 
-PasvVerb(s) == IF s.arg.cmds[s.try] = "epsv" THEN "EPSV" ELSE "PASV"
-PasvExp(s)  == IF s.arg.cmds[s.try] = "epsv" THEN {Ex(229)} ELSE {Ex(227)}
-\* the payload class of a reply is its shape, whatever command the server meant to answer: "plain" (one line of text),
-\* "epsv"/"pasv" (one line carrying a port in that syntax; "...dead": nobody listens there), "mlst" (three lines, facts in the middle)
-PasvShapes(s) == IF s.arg.cmds[s.try] = "epsv" THEN {"epsv", "epsvdead"} ELSE {"pasv", "pasvdead"}
 \* DataConnectionThrottleStreamIO.finish(): close, then wait for 2xx through 1xx
 CloseData(s) == [Emit(s, EvDClose(s.did)) EXCEPT !.d = "none"]
 
 Step(s) ==
-  CASE s.pc = "CN.w" -> Await(s, {Ex(220)}, {Ex(120)}, "OK")
+  CASE s.pc \in AwaitLabels -> Await(s, AwExp(s), AwWait(s), AwNext(s))
     [] s.pc = "OK"   -> Finish(s, "ok", 0, 0)
     \* login
     [] s.pc = "L0"   -> SendC(s, "USER", "", "L0.w")
-    [] s.pc = "L0.w" -> Await(s, {Ex(230), m33x}, {}, "L1")
     [] s.pc = "L1"   -> CASE s.code = 230 -> Finish(s, "ok", 0, 0)
                           [] s.code = 331 -> SendC(s, "PASS", "", "L0.w")
                           [] s.code = 332 -> SendC(s, "ACCT", "", "L0.w")
                           [] OTHER -> Unwind(s, "SCE", s.code)
     \* one command, one expectation
     [] s.pc = "S"    -> SendC(s, SVerb(s.op), "", "S.w")
-    [] s.pc = "S.w"  -> Await(s, SExp(s.op), {}, "OK")
     [] s.pc = "R1"   -> SendC(s, "RNFR", "", "R1.w")
-    [] s.pc = "R1.w" -> Await(s, {Ex(350)}, {}, "R2")
     [] s.pc = "R2"   -> SendC(s, "RNTO", "", "R2.w")
-    [] s.pc = "R2.w" -> Await(s, {m2xx}, {}, "OK")
     [] s.pc = "Q"    -> SendC(s, "QUIT", "", "Q.w")
-    [] s.pc = "Q.w"  -> Await(s, {m2xx}, {}, "Q.c")
     [] s.pc = "Q.c"  -> Finish([Emit(s, EvCClose) EXCEPT !.ctl = "closed"], "ok", 0, 0)
     [] s.pc = "AB"   -> IF s.arg.wait THEN SendC(s, "ABOR", "", "AB.w")
                         ELSE Finish(SendC(s, "ABOR", "", "idle"), "ok", 0, 0)
-    [] s.pc = "AB.w" -> Await(s, {Ex(226)}, {Ex(426)}, "OK")
     \* get_passive_connection
     [] s.pc = "PA0"   -> SendC(s, "TYPE", "I", "PA0.w")
-    [] s.pc = "PA0.w" -> Await(s, {Ex(200)}, {}, "PA1h")
     [] s.pc = "PA1h"  -> [PushH(s, "passive") EXCEPT !.try = 1, !.pc = "PA1"]
     [] s.pc = "PA1"   -> SendC(s, PasvVerb(s), "", "PA1.w")
-    [] s.pc = "PA1.w" -> Await(s, PasvExp(s), {}, "PA2")
     [] s.pc = "PA2"   -> IF s.pl \notin PasvShapes(s) THEN Unwind(s, "other", 0) ELSE Goto(PopH(s), "PA3")   \* parse_*_response raises
     [] s.pc = "PA3"   -> IF s.pl \in {"epsvdead", "pasvdead"} THEN Unwind(s, "other", 0)                     \* connection refused
                          ELSE PopRet([Emit(Abandon(s), EvDOpen(s.did + 1))
@@ -148,9 +158,7 @@ Step(s) ==
     \* get_stream
     [] s.pc = "GS0"   -> Goto(Push(s, "GS1"), "PA0")
     [] s.pc = "GS1"   -> IF s.goff > 0 THEN SendC(s, "REST", "off", "GS1.w") ELSE Goto(s, "GS2")
-    [] s.pc = "GS1.w" -> Await(s, {Ex(350)}, {}, "GS2")
     [] s.pc = "GS2"   -> SendC(s, s.gv, "", "GS2.w")
-    [] s.pc = "GS2.w" -> Await(s, {m1xx}, {}, "GS3")
     [] s.pc = "GS3"   -> PopRet(s)
     \* list(): _new_stream and the read loop (not recursive)
     [] s.pc = "LS0"   -> LET mlsd == s.raw \in {"", "MLSD"}
@@ -164,13 +172,11 @@ Step(s) ==
                            [] x = "dot" -> s1
                            [] x = "eof" -> Goto(CloseData(s1), "LS2.w")
                            [] OTHER     -> Unwind(s1, "other", 0)          \* a line no parser accepts is raised
-    [] s.pc = "LS2.w" -> Await(s, {m2xx}, {m1xx}, "LS3")
     [] s.pc = "LS3"   -> PopRet(s)
     [] s.pc = "LI"    -> Goto(Push([s EXCEPT !.raw = s.arg.raw], "LI.r"), "LS0")
     [] s.pc = "LI.r"  -> Finish(s, "ok", 0, s.ents)
     \* stat(): MLST, on 50x the listing of the parent
     [] s.pc = "ST0"   -> SendC(PushH(s, "stat"), "MLST", "", "ST0.w")
-    [] s.pc = "ST0.w" -> Await(s, {m2xx}, {}, "ST1")
     [] s.pc = "ST1"   -> IF s.pl # "mlst" THEN Unwind(s, "other", 0) ELSE PopRet(PopH([s EXCEPT !.pl = ""]))
     [] s.pc = "ST3"   -> IF s.hits > 0 THEN PopRet(s) ELSE Unwind(s, "SCE", 550)
     [] s.pc = "STop"  -> Goto(Push(s, "OK"), "ST0")
@@ -184,18 +190,15 @@ Step(s) ==
     [] s.pc = "MK1"   -> IF s.val = "true" THEN Goto(s, "MK2")
                          ELSE Goto([s EXCEPT !.need = @ + 1, !.lvl = @ - 1], IF s.arg.parents THEN "MK0" ELSE "MK2")
     [] s.pc = "MK2"   -> IF s.need = 0 THEN Finish(s, "ok", 0, 0) ELSE SendC(s, "MKD", "", "MK.w")
-    [] s.pc = "MK.w"  -> Await(s, {Ex(257)}, {}, "MK3")
     [] s.pc = "MK3"   -> Goto([s EXCEPT !.need = @ - 1], "MK2")
     \* async with download_stream(offset): read to end of file
     [] s.pc = "DL0"   -> Goto(Push([s EXCEPT !.gv = "RETR", !.goff = s.arg.off, !.n = 0], "DL1"), "GS0")
     [] s.pc = "DL1"   -> LET x == Head(s.dq)  s1 == [s EXCEPT !.dq = Tail(@)] IN
                          IF x = "eof" THEN Goto(CloseData(s1), "DL2.w") ELSE [s1 EXCEPT !.n = @ + 1]
-    [] s.pc = "DL2.w" -> Await(s, {m2xx}, {m1xx}, "DL3")
     [] s.pc = "DL3"   -> Finish(s, "ok", 0, s.n)
     \* async with upload_stream(): write, finish
     [] s.pc = "UL0"   -> Goto(Push([s EXCEPT !.gv = "STOR", !.goff = s.arg.off], "UL1"), "GS0")
     [] s.pc = "UL1"   -> Goto(CloseData(s), "UL2.w")
-    [] s.pc = "UL2.w" -> Await(s, {m2xx}, {m1xx}, "OK")
 
 RECURSIVE Run(_)
 Run(s) == IF Blocked(s) THEN s ELSE Run(Step(s))
